@@ -20,10 +20,11 @@ CFG = {
                   "the model of the bech32 crate (coq/Addr/Bech32.v), so the former premise of C11_bech32 is a theorem; cbor_event's Deserializer is modelled "
                   "for the calls the Byron decoder makes (array/map/tag/unsigned_integer/bytes incl. chunked strings); allocation failure "
                   "for declared lengths between what the allocator grants and 2^63 is not modelled; extraction and the OCaml/Rust glue. "
-                  "No axioms. Byron truncation is covered by the correspondence run, not by a theorem.",
+                  "No axioms.",
     "theorems": ["C11_shelley_roundtrip", "C11_embedded_roundtrip", "C11_roundtrip_needs_network_below_16", "C11_classify",
                  "C11_classify_accessors", "C11_classify_written", "C11_header_table", "C11_strict_accepts_iff",
-                 "C11_strict_rejects_trailing", "C11_strict_rejects_truncation", "C11_strict_rejects_unterminated",
+                 "C11_strict_rejects_trailing", "C11_strict_rejects_truncation", "C11_strict_rejects_truncation_byron",
+                 "C11_parsed_wf", "C11_judge_accepts_model", "C11_judge_holds_on_written", "C11_strict_rejects_unterminated",
                  "C11_strict_rejects_overflow", "C11_strict_rejects_empty", "C11_varnat", "C11_varnat_canonical",
                  "C11_byron_roundtrip", "C11_byron_roundtrip_any_crc", "C11_crc_table_standard", "C11_base58",
                  "C11_base58_empty_refuted", "C11_byron_base58", "C11_bech32", "C11_bech32_default_total", "C11_bech32_any_codec",
